@@ -13,7 +13,7 @@ open Manticore
 open Manticore.Gen
 open Manticore.Consts (byteAt)
 
-/-- the six shift amounts of the identifier authority (`uint64(sidBytes[2+i]) << s`; the last term is not shifted) -/
+-- the six shift amounts of the identifier authority (`uint64(sidBytes[2+i]) << s`; the last term is not shifted)
 theorem consts_match_model_authority (b2 b3 b4 b5 b6 b7 : UInt8) :
     authority b2 b3 b4 b5 b6 b7
       = (b2.toUInt64 <<< UInt64.ofNat ConstsC16.sid_auth0_shift) ||| (b3.toUInt64 <<< UInt64.ofNat ConstsC16.sid_auth1_shift)
@@ -27,7 +27,7 @@ theorem consts_match_model_authority_shape :
          "(<< (uint64 (index sidBytes (+ 2 2))) 24)", "(<< (uint64 (index sidBytes (+ 2 3))) 16)",
          "(<< (uint64 (index sidBytes (+ 2 4))) 8)", "(uint64 (index sidBytes (+ 2 5)))"] := by exact rfl
 
-/-- the sub-authority loop reads at `8 + 4·k` -/
+-- the sub-authority loop reads at `8 + 4·k`
 theorem consts_match_model_subLoop (b : Bytes) (k n : Nat) (acc : List String) :
     subLoop b k (n + 1) acc =
       match readLe32From b (ConstsC16.sid_sub_base + ConstsC16.sid_sub_stride * k) with
@@ -35,7 +35,7 @@ theorem consts_match_model_subLoop (b : Bytes) (k n : Nat) (acc : List String) :
       | .err => .err
       | .panic => .panic := by exact rfl
 
-/-- each sub-authority is 32 bits in the byte order the source names -/
+-- each sub-authority is 32 bits in the byte order the source names
 theorem consts_match_model_readLe32 :
     ConstsC16.sid_sub_width = 32 ∧
     readLe32From [0x10, 0x11, 0x12, 0x13, 0x14] 1
@@ -46,8 +46,8 @@ theorem consts_match_model_sub_shape :
       ∧ ConstsC16.sid_fits_shape = "(< (len sidBytes) (+ 8 (* 4 subAuthorityCount)))"
       ∧ ConstsC16.sid_guard_shape = "(|| (< (len sidBytes) 8) (!= (index sidBytes 0) 1))" := ⟨rfl, rfl, rfl⟩
 
-/-- a buffer that passes the length guard: which byte is the revision, which the count, which six the authority,
-    the revision value, and the bound `8 + 4·count` -/
+-- a buffer that passes the length guard: which byte is the revision, which the count, which six the authority,
+-- the revision value, and the bound `8 + 4·count`
 theorem consts_match_model_parseSID (r c b2 b3 b4 b5 b6 b7 : UInt8) (rest : Bytes) :
     let b := r :: c :: b2 :: b3 :: b4 :: b5 :: b6 :: b7 :: rest
     parseSID b =
@@ -66,7 +66,7 @@ theorem consts_match_model_parseSID (r c b2 b3 b4 b5 b6 b7 : UInt8) (rest : Byte
         | .err => .err
         | .panic => .panic := by exact rfl
 
-/-- a buffer shorter than the guard's minimum length is "not a SID" -/
+-- a buffer shorter than the guard's minimum length is "not a SID"
 theorem consts_match_model_parseSID_short (b : Bytes) (h : b.length < ConstsC16.sid_guard_minLen) : parseSID b = .ok "" := by
   match b, h with
   | [], _ => rfl
@@ -79,12 +79,12 @@ theorem consts_match_model_parseSID_short (b : Bytes) (h : b.length < ConstsC16.
   | [_, _, _, _, _, _, _], _ => rfl
   | _ :: _ :: _ :: _ :: _ :: _ :: _ :: _ :: _, h => exact absurd h (by simp [ConstsC16.sid_guard_minLen])
 
-/-- the texts around the numbers: `"S-%d-%d"`, `"%d"`, joined by `"-"` -/
+-- the texts around the numbers: `"S-%d-%d"`, `"%d"`, joined by `"-"`
 theorem consts_match_model_sid_texts :
     ConstsC16.sid_headFormat = asciiBytes "S-%d-%d" ∧ ConstsC16.sid_subFormat = asciiBytes "%d"
       ∧ ConstsC16.sid_joiner = asciiBytes "-" := by decide
 
-/-- the DN functions: escape byte, separator, the `DC=` prefix (tested and trimmed), the joining and trimmed dot -/
+-- the DN functions: escape byte, separator, the `DC=` prefix (tested and trimmed), the joining and trimmed dot
 theorem consts_match_model_dn :
     backslash = UInt8.ofNat ConstsC16.dn_escape ∧ comma = UInt8.ofNat ConstsC16.dn_separator
       ∧ dcPrefix = ConstsC16.dn_prefix ∧ ConstsC16.dn_trimPrefix = ConstsC16.dn_prefix
